@@ -138,6 +138,7 @@ func (g *c6gen) allStmts(size int, c c6ctx) []*c6stmt {
 		}
 		return o
 	}
+	emptyClauses := false
 	prod := func(sizes []int, ctxs []c6ctx, f func([][]*c6stmt)) {
 		cur := make([][]*c6stmt, len(sizes))
 		var rec func(i int)
@@ -148,6 +149,10 @@ func (g *c6gen) allStmts(size int, c c6ctx) []*c6stmt {
 			}
 			for _, b := range g.allBlocks(sizes[i], ctxs[i]) {
 				cur[i] = b
+				rec(i + 1)
+			}
+			if emptyClauses && sizes[i] == 1 {
+				cur[i] = []*c6stmt{} // an empty clause body counts as one node
 				rec(i + 1)
 			}
 		}
@@ -179,7 +184,8 @@ func (g *c6gen) allStmts(size int, c c6ctx) []*c6stmt {
 			prod(sp, []c6ctx{loop}, func(b [][]*c6stmt) { out = append(out, &c6stmt{kind: kd, blocks: b, size: size}) })
 		}
 	}
-	// switches: 1..2 cases, default absent or at each position
+	// switches: 1..2 cases, default absent or at each position; a clause body may be empty
+	emptyClauses = true
 	for _, kd := range []c6kind{c6swTag, c6swBool} {
 		kd := kd
 		for nCases := 1; nCases <= 2; nCases++ {
